@@ -26,6 +26,10 @@ class Leaf:            # non-frame awaitable/iterator leaf
     def __next__(self): return "leaf"
     def throw(self, *a): raise a[0] if isinstance(a[0], BaseException) else a[0]()   # not used by oracle comparisons
 
+class GenProtoLeaf(Leaf):   # a hand-written iterator with the FULL generator protocol (send / throw / close): still not a generator, still the leaf
+    def send(self, v): return "leaf"
+    def close(self): pass
+
 # link kinds: each takes `inner` (an awaitable factory) and returns an awaitable factory
 def k_await_coro(inner):
     async def co():
@@ -145,6 +149,9 @@ def end_trap():
 def end_leaf():
     async def t(): await Leaf()
     return t
+def end_leaf_genproto():
+    async def t(): await GenProtoLeaf()
+    return t
 
 
 def tb_frames(exc):
@@ -158,7 +165,7 @@ def own_frame(o):
 
 for depth in range(0, 4 if THOROUGH else 3):
     for combo in itertools.product(KINDS, repeat=depth):
-        for end in (end_trap, end_leaf):
+        for end in (end_trap, end_leaf, end_leaf_genproto):
             fac = end()
             for k in reversed(combo): fac = k(fac)
             co = fac()
@@ -199,7 +206,7 @@ for depth in range(0, 4 if THOROUGH else 3):
                 leg.violation(key, f"oracle raised {type(e)}"); continue
             if got != exp or s.error is not None or lines != explines:
                 leg.violation(key, f"frames {[f.f_code.co_name for f in got]} lines {lines} != exception path {[f.f_code.co_name for f in exp]} lines {explines}; error={s.error!r}")
-            if end is end_leaf and not isinstance(s.leaf, Leaf):
+            if end in (end_leaf, end_leaf_genproto) and not isinstance(s.leaf, Leaf):
                 leg.violation(key, f"leaf is {s.leaf!r}, expected the non-frame awaitable")
             if end is end_trap and s.leaf is not None:
                 leg.violation(key, f"leaf is {s.leaf!r}, expected None")
